@@ -50,7 +50,15 @@ class SimKernel(object):
         self.trace = []         # effects, in order
         self.now = 0.0
         self.last_pipes = []    # pipes created since the last fork (they belong to the next child)
+        self.faults = {}        # call name -> list of errno values consumed per call (0 = no fault)
         self.fork_owner = None  # callback -> owner index
+
+    def _fault(self, name):
+        q = self.faults.get(name)
+        if q:
+            code = q.pop(0)
+            if code:
+                raise OSError(code, 'sim injected fault in %s' % name)
 
     # --- descriptors
     def _alloc_fd(self):
@@ -74,6 +82,7 @@ class SimKernel(object):
         return r, w
 
     def close(self, fd):
+        self._fault('close')
         ent = self.fds.pop(fd, None)
         if ent is None:
             raise OSError(errno.EBADF, 'sim bad fd')
@@ -84,6 +93,7 @@ class SimKernel(object):
             p.w_refs -= 1
 
     def read(self, fd, n):
+        self._fault('read')
         ent = self.fds.get(fd)
         if ent is None or ent[1] != 'r':
             raise OSError(errno.EBADF, 'sim bad fd')
@@ -96,6 +106,7 @@ class SimKernel(object):
         return b''
 
     def write(self, fd, data):
+        self._fault('write')
         ent = self.fds.get(fd)
         if ent is None or ent[1] != 'w':
             raise OSError(errno.EBADF, 'sim bad fd')
@@ -169,6 +180,7 @@ class SimKernel(object):
         raise OSError(errno.ESRCH, 'sim no such process')
 
     def waitpid(self, pid, flags):
+        self._fault('waitpid')
         if self.zombies:
             p, sts = self.zombies.pop(0)
             self.trace.append(('wait', p, sts))
@@ -183,6 +195,16 @@ class SimKernel(object):
             return
         pid = self.live[k % len(self.live)]
         self._die(pid, status)
+
+    def child_write(self, k, chan, data):
+        """the k-th live child writes to its stdout (chan 1) or stderr (chan 2)"""
+        if not self.live:
+            return
+        pid = self.live[k % len(self.live)]
+        pipes = self.children_fds.get(pid, [])
+        if chan < len(pipes):
+            p = pipes[chan][0]
+            p.buf += data[:max(0, p.capacity - len(p.buf))]
 
     def unknown_zombie(self, status):
         pid = self.nextpid
